@@ -86,8 +86,12 @@ def _truncation_point(ctx, cls) -> str:
             I = problem_interp(ctx, cls)
             t = I.attrs.get("max_demand")
             _TRUNC[key] = show_norm(t) if t is not None else "?"
-        except (AnalysisError, Unsupported):
-            _TRUNC[key] = "?"
+        except (AnalysisError, Unsupported) as e:
+            _TRUNC[key] = f"?{e}"
+    if _TRUNC[key].startswith("?"):
+        # the point is part of the identity of the recorded finding: without it neither "the recorded truncation" nor "a moved one" can be said
+        raise AnalysisError(f"{cls.name}: the truncation point `max_demand` of the open Poisson tables cannot be evaluated "
+                            f"({_TRUNC[key][1:] or 'attribute not assigned in the constructor'}); R13.1 cannot be decided")
     return _TRUNC[key]
 
 
